@@ -156,3 +156,1236 @@ def translate(src, names, want, nat_sub=False):
     if x[1] != want:
         raise Untranslatable(f'{src!r}: expected {want}, got {x[1]}')
     return x[0]
+
+
+# ======================================================================================================================
+# A small C/C++ statement parser and path enumerator (used for src/adapters.cpp).
+#
+# The chunker's cut rule used to be recognised by ONE regular expression over the whole body of `next_cut`, so any
+# behaviour-preserving rewrite of its control flow (nested ifs, early returns, a `while` loop, renamed locals, a hoisted
+# constant) made the rule "unrecognised".  Here the function body is parsed into statements and executed symbolically:
+# locals are substituted by their values, every `if` becomes a node of a decision tree whose leaves are `return e`, the
+# scan loop or the end of the block.  The guard functions the Lean model uses (`isTail`, `tailCut`, `waits`, …) are read
+# off that tree, whatever statement shape produced it.
+# ======================================================================================================================
+CTOK = re.compile(r'\s*(?:(0[xX][0-9a-fA-F\']+|0[bB][01\']+|\d[\d\']*)([uUlLzZ]*)|([A-Za-z_][A-Za-z_0-9]*)|("(?:[^"\\\n]|\\.)*")|'
+                  r'(::|->|\+\+|--|<<=|>>=|<<|>>|<=|>=|==|!=|&&|\|\||\+=|-=|\*=|/=|%=|&=|\|=|\^=|[-+*/%&|^~!<>=?:;,.(){}\[\]]))')
+
+
+def c_tokens(src):
+    src = re.sub(r'/\*.*?\*/', ' ', src, flags=re.S)
+    src = re.sub(r'//[^\n]*', ' ', src)
+    pos, out = 0, []
+    src = src.rstrip()
+    while pos < len(src):
+        m = CTOK.match(src, pos)
+        if not m:
+            if not src[pos:].strip():
+                break
+            raise Untranslatable(f'cannot tokenise C at {src[pos:pos + 30]!r}')
+        pos = m.end()
+        if m.group(1):
+            t = m.group(1).replace("'", '')
+            v = int(t[2:], 16) if t[:2].lower() == '0x' else int(t[2:], 2) if t[:2].lower() == '0b' else int(t)
+            out.append(('num', v))
+        elif m.group(3):
+            out.append(('id', m.group(3)))
+        elif m.group(4):
+            out.append(('str', m.group(4)))
+        else:
+            out.append(('op', m.group(5)))
+    return out
+
+
+TYPE_WORDS = {'const', 'unsigned', 'signed', 'long', 'short', 'int', 'char', 'bool', 'auto', 'size_t', 'ssize_t', 'uint64_t',
+              'uint32_t', 'uint8_t', 'int64_t', 'int32_t', 'float', 'double', 'void', '__m128i', '__m128', 'static', 'constexpr',
+              'volatile', 'register', 'ptrdiff_t', 'uintptr_t'}
+CASTS = {'static_cast', 'reinterpret_cast', 'const_cast', 'dynamic_cast'}
+ASSIGN_OPS = {'=', '+=', '-=', '*=', '/=', '%=', '&=', '|=', '^=', '<<=', '>>='}
+BIN_PREC = [('||',), ('&&',), ('|',), ('^',), ('&',), ('==', '!='), ('<', '<=', '>', '>='), ('<<', '>>'), ('+', '-'), ('*', '/', '%')]
+
+
+class CParser:
+    """expressions → ('num', v) ('id', name) ('call', f, args) ('idx', a, i) ('member', a, name) ('un', op, x)
+    ('bin', op, l, r) ('tern', c, a, b) ('assign', op, target, value) ('cast', x) ('post', op, x);
+    statements → ('block', [..]) ('if', init|None, cond, then, else|None) ('for', init|None, cond|None, step|None, body)
+    ('while', cond, body) ('do', body, cond) ('return', e|None) ('decl', [(name, init|None)]) ('expr', e) ('break',) ('continue',)"""
+    def __init__(self, toks):
+        self.t, self.i = toks, 0
+
+    def peek(self, k=0):
+        return self.t[self.i + k] if self.i + k < len(self.t) else (None, None)
+
+    def at(self, val, k=0):
+        return self.peek(k) == ('op', val)
+
+    def eat(self, kind=None, val=None):
+        k, v = self.peek()
+        if (kind is not None and k != kind) or (val is not None and v != val):
+            raise Untranslatable(f'C: expected {kind or ""} {val or ""}, got {k} {v}')
+        self.i += 1
+        return v
+
+    # ---- types / declarations
+    def try_type(self):
+        """consume a type if one starts here (no declarator); returns True/False, position restored on False"""
+        save = self.i
+        words = 0
+        while True:
+            k, v = self.peek()
+            if k == 'id' and (v in TYPE_WORDS or (words == 0) or self.at('::', -1)):
+                # a (possibly qualified) type name
+                if v not in TYPE_WORDS and words > 0 and not self.at('::', -1):
+                    break
+                self.i += 1
+                if v not in ('const', 'static', 'constexpr', 'volatile', 'register'):
+                    words += 1
+                if self.at('::'):
+                    self.i += 1
+                    words -= 1
+                    continue
+                if self.at('<'):
+                    depth = 0
+                    while True:
+                        k2, v2 = self.peek()
+                        if k2 is None:
+                            self.i = save
+                            return False
+                        self.i += 1
+                        if (k2, v2) == ('op', '<'):
+                            depth += 1
+                        elif (k2, v2) == ('op', '>'):
+                            depth -= 1
+                            if depth == 0:
+                                break
+                        elif (k2, v2) == ('op', '>>'):
+                            depth -= 2
+                            if depth <= 0:
+                                break
+                        elif (k2, v2) in (('op', ';'), ('op', '{'), ('op', '}')):
+                            self.i = save
+                            return False
+                continue
+            break
+        if words == 0:
+            self.i = save
+            return False
+        while self.peek() in (('op', '*'), ('op', '&'), ('id', 'const')):
+            self.i += 1
+        k, v = self.peek()
+        if k == 'id' and v not in TYPE_WORDS and self.peek(1) in (('op', '='), ('op', ','), ('op', ';'), ('op', '{'), ('op', '(')):
+            # `name(` could be a call statement `f(x);` — only a declaration if a type with ≥1 real word preceded it
+            if self.peek(1) == ('op', '(') and self.i - save == 1:
+                self.i = save
+                return False
+            return True
+        self.i = save
+        return False
+
+    def decl_rest(self):
+        """after the type: declarators up to ';' (consumed)"""
+        items = []
+        while True:
+            while self.peek() in (('op', '*'), ('op', '&'), ('id', 'const')):
+                self.i += 1
+            name = self.eat('id')
+            init = None
+            if self.at('='):
+                self.i += 1
+                init = self.assign()
+            elif self.at('{'):
+                self.i += 1
+                init = self.assign() if not self.at('}') else ('num', 0)
+                self.eat('op', '}')
+            elif self.at('('):
+                self.i += 1
+                init = self.assign() if not self.at(')') else ('num', 0)
+                self.eat('op', ')')
+            items.append((name, init))
+            if self.at(','):
+                self.i += 1
+                continue
+            self.eat('op', ';')
+            return ('decl', items)
+
+    # ---- statements
+    def stmt(self):
+        k, v = self.peek()
+        if (k, v) == ('op', '{'):
+            self.i += 1
+            body = []
+            while not self.at('}'):
+                body.append(self.stmt())
+            self.i += 1
+            return ('block', body)
+        if (k, v) == ('op', ';'):
+            self.i += 1
+            return ('block', [])
+        if k == 'id' and v == 'if':
+            self.i += 1
+            if self.peek() == ('id', 'constexpr'):
+                self.i += 1
+            self.eat('op', '(')
+            init = None
+            save = self.i
+            if self.try_type():
+                init = self.decl_rest()          # consumes the ';'
+            else:
+                self.i = save
+                # `if (x = f(); cond)` — an expression init
+                e = self.expr()
+                if self.at(';'):
+                    self.i += 1
+                    init = ('expr', e)
+                else:
+                    self.i = save
+            cond = self.expr()
+            self.eat('op', ')')
+            then = self.stmt()
+            els = None
+            if self.peek() == ('id', 'else'):
+                self.i += 1
+                els = self.stmt()
+            return ('if', init, cond, then, els)
+        if k == 'id' and v == 'for':
+            self.i += 1
+            self.eat('op', '(')
+            init = None
+            if self.at(';'):
+                self.i += 1
+            elif self.try_type():
+                init = self.decl_rest()
+            else:
+                init = ('expr', self.expr())
+                self.eat('op', ';')
+            cond = None if self.at(';') else self.expr()
+            self.eat('op', ';')
+            step = None if self.at(')') else self.expr()
+            self.eat('op', ')')
+            return ('for', init, cond, step, self.stmt())
+        if k == 'id' and v == 'while':
+            self.i += 1
+            self.eat('op', '(')
+            cond = self.expr()
+            self.eat('op', ')')
+            return ('while', cond, self.stmt())
+        if k == 'id' and v == 'do':
+            self.i += 1
+            body = self.stmt()
+            self.eat('id', 'while')
+            self.eat('op', '(')
+            cond = self.expr()
+            self.eat('op', ')')
+            self.eat('op', ';')
+            return ('do', body, cond)
+        if k == 'id' and v == 'return':
+            self.i += 1
+            e = None if self.at(';') else self.expr()
+            self.eat('op', ';')
+            return ('return', e)
+        if k == 'id' and v in ('break', 'continue'):
+            self.i += 1
+            self.eat('op', ';')
+            return (v,)
+        if k == 'id' and v == 'throw':
+            self.i += 1
+            e = None if self.at(';') else self.expr()
+            self.eat('op', ';')
+            return ('throw', e)
+        if self.try_type():
+            return self.decl_rest()
+        e = self.expr()
+        self.eat('op', ';')
+        return ('expr', e)
+
+    # ---- expressions
+    def expr(self):
+        e = self.assign()
+        while self.at(','):
+            self.i += 1
+            e = ('bin', ',', e, self.assign())
+        return e
+
+    def assign(self):
+        l = self.ternary()
+        k, v = self.peek()
+        if k == 'op' and v in ASSIGN_OPS:
+            self.i += 1
+            return ('assign', v, l, self.assign())
+        return l
+
+    def ternary(self):
+        c = self.binary(0)
+        if self.at('?'):
+            self.i += 1
+            a = self.assign()
+            self.eat('op', ':')
+            b = self.assign()
+            return ('tern', c, a, b)
+        return c
+
+    def binary(self, level):
+        if level == len(BIN_PREC):
+            return self.unary()
+        l = self.binary(level + 1)
+        while self.peek()[0] == 'op' and self.peek()[1] in BIN_PREC[level]:
+            op = self.eat()
+            r = self.binary(level + 1)
+            l = ('bin', op, l, r)
+        return l
+
+    def unary(self):
+        k, v = self.peek()
+        if k == 'op' and v in ('!', '-', '+', '~', '&', '*', '++', '--'):
+            self.i += 1
+            x = self.unary()
+            if v == '-' and x[0] == 'num':
+                return ('un', '-', x)
+            if v == '+':
+                return x
+            return ('un', v, x)
+        if k == 'op' and v == '(':
+            # C-style cast `(type) e`
+            save = self.i
+            self.i += 1
+            if self.peek()[0] == 'id' and self.peek()[1] in TYPE_WORDS:
+                depth = 1
+                while depth:
+                    kk, vv = self.peek()
+                    if kk is None:
+                        break
+                    self.i += 1
+                    if (kk, vv) == ('op', '('):
+                        depth += 1
+                    elif (kk, vv) == ('op', ')'):
+                        depth -= 1
+                return ('cast', self.unary())
+            self.i = save
+        return self.postfix()
+
+    def postfix(self):
+        e = self.primary()
+        while True:
+            if self.at('('):
+                self.i += 1
+                args = []
+                while not self.at(')'):
+                    args.append(self.assign())
+                    if self.at(','):
+                        self.i += 1
+                self.i += 1
+                e = ('call', e, tuple(args))
+            elif self.at('['):
+                self.i += 1
+                i = self.expr()
+                self.eat('op', ']')
+                e = ('idx', e, i)
+            elif self.at('.') or self.at('->'):
+                self.i += 1
+                e = ('member', e, self.eat('id'))
+            elif self.at('++') or self.at('--'):
+                e = ('post', self.eat(), e)
+            else:
+                return e
+
+    def primary(self):
+        k, v = self.peek()
+        if k == 'num':
+            self.i += 1
+            return ('num', v)
+        if k == 'str':
+            self.i += 1
+            while self.peek()[0] == 'str':       # adjacent literals concatenate
+                self.i += 1
+            return ('strlit', v)
+        if k == 'op' and v == '(':
+            self.i += 1
+            e = self.expr()
+            self.eat('op', ')')
+            return e
+        if k == 'op' and v == '[':
+            # lambda: [captures](params) -> type { body }
+            depth = 0
+            while True:
+                kk, vv = self.peek()
+                if kk is None:
+                    raise Untranslatable('C: unterminated lambda capture')
+                self.i += 1
+                depth += {'[': 1, ']': -1}.get(vv, 0) if kk == 'op' else 0
+                if depth == 0:
+                    break
+            params = []
+            if self.at('('):
+                self.i += 1
+                cur = []
+                depth = 1
+                while depth:
+                    kk, vv = self.peek()
+                    if kk is None:
+                        raise Untranslatable('C: unterminated lambda parameters')
+                    self.i += 1
+                    if kk == 'op' and vv == '(':
+                        depth += 1
+                    elif kk == 'op' and vv == ')':
+                        depth -= 1
+                        if depth == 0:
+                            break
+                    if kk == 'op' and vv == ',' and depth == 1:
+                        params.append(cur)
+                        cur = []
+                    else:
+                        cur.append((kk, vv))
+                if cur:
+                    params.append(cur)
+            names = []
+            for prm in params:
+                ids = [vv for kk, vv in prm if kk == 'id']
+                if not ids:
+                    raise Untranslatable('C: lambda parameter without a name')
+                names.append(ids[-1])
+            while not self.at('{'):
+                if self.peek()[0] is None:
+                    raise Untranslatable('C: lambda without a body')
+                self.i += 1       # mutable / noexcept / -> type
+            body = self.stmt()
+            return ('lambda', tuple(names), body[1])
+        if k == 'id':
+            self.i += 1
+            if v in CASTS or (v in TYPE_WORDS and self.at('(')):
+                if self.at('<'):
+                    depth = 0
+                    while True:
+                        kk, vv = self.peek()
+                        if kk is None:
+                            raise Untranslatable('C: unterminated cast')
+                        self.i += 1
+                        if (kk, vv) == ('op', '<'):
+                            depth += 1
+                        elif (kk, vv) == ('op', '>'):
+                            depth -= 1
+                            if depth == 0:
+                                break
+                self.eat('op', '(')
+                e = self.expr()
+                self.eat('op', ')')
+                return ('cast', e)
+            if v in ('true', 'false'):
+                return ('num', 1 if v == 'true' else 0)
+            name = v
+            while self.at('::'):
+                self.i += 1
+                name = self.eat('id')           # keep the last component (std::max → max)
+            return ('id', name)
+        raise Untranslatable(f'C: unexpected token {k} {v}')
+
+
+def c_function(src, name, cls=None):
+    """(parameter names, body statements) of the definition `… [cls::]name(params) { … }`"""
+    src = re.sub(r'/\*.*?\*/', ' ', src, flags=re.S)
+    src = re.sub(r'//[^\n]*', ' ', src)
+    pat = re.compile((re.escape(cls) + r'\s*::\s*' if cls else r'\b') + re.escape(name) + r'\s*\(')
+    for m in pat.finditer(src):
+        # parameter list
+        depth, j = 1, m.end()
+        while j < len(src) and depth:
+            depth += {'(': 1, ')': -1}.get(src[j], 0)
+            j += 1
+        params_txt = src[m.end():j - 1]
+        k = j
+        while k < len(src) and src[k] in ' \t\r\n':
+            k += 1
+        if src.startswith('const', k):
+            k += 5
+            while k < len(src) and src[k] in ' \t\r\n':
+                k += 1
+        if k < len(src) and src[k] == ':' and not src.startswith('::', k):
+            # constructor: skip the member initialiser list
+            depth = 0
+            while k < len(src) and not (src[k] == '{' and depth == 0 and src[k - 1] not in '=,(' ):
+                depth += {'(': 1, ')': -1}.get(src[k], 0)
+                if src[k] == ';':
+                    break
+                k += 1
+        if k >= len(src) or src[k] != '{':
+            continue
+        depth, e = 1, k + 1
+        while e < len(src) and depth:
+            depth += {'{': 1, '}': -1}.get(src[e], 0)
+            e += 1
+        body = src[k:e]
+        params = []
+        for part in [x for x in split_top(params_txt) if x.strip()]:
+            part = part.split('=')[0].strip()
+            mm = re.search(r'([A-Za-z_]\w*)\s*(?:\[\s*\])?$', part)
+            params.append(mm.group(1) if mm else None)
+        st = CParser(c_tokens(body)).stmt()
+        return params, st[1]
+    return None
+
+
+def split_top(s):
+    out, depth, cur = [], 0, ''
+    for ch in s:
+        if ch in '(<[':
+            depth += 1
+        elif ch in ')>]':
+            depth -= 1
+        if ch == ',' and depth == 0:
+            out.append(cur)
+            cur = ''
+        else:
+            cur += ch
+    out.append(cur)
+    return out
+
+
+# ---- symbolic execution: decision trees
+_HELPERS = {}     # name -> (params, body) of the small functions of the translation unit that calls may be replaced by
+_CONSTS = {}      # file-scope integer constants (constexpr / const / #define)
+
+
+def c_file_consts(src):
+    """{name: ('num', v)} of the integer constants defined at file scope: `static constexpr size_t N = 4;`, `#define N 4`"""
+    out = {}
+    s = re.sub(r'/\*.*?\*/', ' ', src, flags=re.S)
+    s = re.sub(r'//[^\n]*', ' ', s)
+    found = [(m.group(1), m.group(2)) for m in re.finditer(r'^[ \t]*#[ \t]*define[ \t]+([A-Za-z_]\w*)[ \t]+([^\n]+)$', s, flags=re.M)]
+    found += [(m.group(1), m.group(2)) for m in re.finditer(
+        r'(?:^|[;{}])\s*(?:static\s+|inline\s+)*(?:constexpr|const)\s+(?:static\s+)?[\w:]+(?:\s+[\w:]+)*\s+([A-Za-z_]\w*)\s*=\s*([^;{}]+);', s)]
+    for name, val in found:
+        try:
+            e = c_fold(c_subst0(CParser(c_tokens(val)).expr(), out))
+        except Untranslatable:
+            continue
+        if e[0] == 'num' or (e[0] == 'un' and e[1] == '-' and e[2][0] == 'num'):
+            out[name] = e
+    return out
+
+
+def c_fold(e):
+    """integer constant folding: 4 - 1 → 3, (x + 4) - 1 → x + 3, ~3 → -4"""
+    if not isinstance(e, tuple) or not e:
+        return e
+    if e[0] == 'bin':
+        l, r = c_fold(e[2]), c_fold(e[3])
+        op = e[1]
+        if l[0] == 'num' and r[0] == 'num':
+            a, b = l[1], r[1]
+            v = {'+': a + b, '-': a - b if a >= b else None, '*': a * b, '/': a // b if b else None, '%': a % b if b else None}.get(op)
+            if v is not None:
+                return ('num', v)
+        if op in ('+', '-') and r[0] == 'num' and l[0] == 'bin' and l[1] in ('+', '-') and l[3][0] == 'num':
+            # (x ± a) ± b
+            a = l[3][1] if l[1] == '+' else -l[3][1]
+            b = r[1] if op == '+' else -r[1]
+            if a + b >= 0:
+                return ('bin', '+', l[2], ('num', a + b)) if a + b else l[2]
+        if op == '+' and l[0] == 'num' and r[0] != 'num':
+            return c_fold(('bin', '+', r, l)) if r[0] == 'bin' and r[1] in ('+', '-') and r[3][0] == 'num' else ('bin', op, l, r)
+        return ('bin', op, l, r)
+    if e[0] == 'un':
+        x = c_fold(e[2])
+        if e[1] == '~' and x[0] == 'num':
+            return ('un', '-', ('num', x[1] + 1))
+        return ('un', e[1], x)
+    return tuple(c_fold(a) if isinstance(a, tuple) else a for a in e)
+
+
+def c_helpers(src):
+    """every function definition `T name(params) { … }` / `T cls::name(params) { … }` of the source whose body could be parsed"""
+    out = {}
+    s = re.sub(r'/\*.*?\*/', ' ', src, flags=re.S)
+    s = re.sub(r'//[^\n]*', ' ', s)
+    for m in re.finditer(r'\b([A-Za-z_]\w*)\s*\(([^(){};]*)\)\s*(?:const\s*)?(?:noexcept\s*)?\{', s):
+        name = m.group(1)
+        if name in ('if', 'for', 'while', 'switch', 'catch', 'return', 'sizeof') or name in out:
+            continue
+        try:
+            fn = c_function(s[m.start():], name)
+        except Untranslatable:
+            continue
+        if fn is not None and None not in fn[0]:
+            out[name] = fn
+    return out
+
+
+def _tree_expr(t):
+    if t[0] == 'ret' and t[1] is not None:
+        return t[1]
+    if t[0] == 'if':
+        return ('tern', t[1], _tree_expr(t[2]), _tree_expr(t[3]))
+    raise Untranslatable('C: helper does not return a value on every path')
+
+
+def _pure(e):
+    """no calls other than max / min"""
+    if not isinstance(e, tuple):
+        return True
+    if e and e[0] == 'call':
+        if not (e[1][0] == 'id' and e[1][1] in ('max', 'min')):
+            return False
+    return all(_pure(a) for a in e if isinstance(a, tuple))
+
+
+def c_inline(e, depth=0):
+    """calls of small pure helper functions of the same file replaced by their value"""
+    if not isinstance(e, tuple) or not e:
+        return e
+    if e[0] == 'call':
+        f = e[1]
+        name = f[1] if f[0] == 'id' else f[2] if (f[0] == 'member' and f[1] == ('id', 'this')) else None
+        args = tuple(c_inline(a, depth) for a in e[2])
+        if name in _HELPERS and depth < 4:
+            params, body = _HELPERS[name]
+            if len(params) == len(args):
+                try:
+                    holes = [('id', f'_A_{depth}_{i}') for i in range(len(args))]
+                    v = _tree_expr(CExec().run(body, dict(zip(params, holes))))
+                    v = c_inline(v, depth + 1)
+                    if _pure(v):
+                        for h, a in zip(holes, args):
+                            v = c_replace(v, h, a)
+                        return v
+                except Untranslatable:
+                    pass
+        return ('call', f, args)
+    return tuple(c_inline(a, depth) if isinstance(a, tuple) else a for a in e)
+
+
+def c_subst(e, env):
+    return c_fold(c_inline(c_subst0(e, env)))
+
+
+def c_subst0(e, env):
+    if e is None:
+        return None
+    k = e[0]
+    if k == 'num':
+        return e
+    if k == 'id':
+        return env[e[1]] if e[1] in env else _CONSTS.get(e[1], e)
+    if k == 'lambda':
+        return ('closure', e[1], e[2], tuple(sorted((kk, vv) for kk, vv in env.items() if isinstance(kk, str))))
+    if k == 'call':
+        if e[1][0] == 'id' and e[1][1] in env and env[e[1][1]][0] == 'closure':
+            _c, params, body, cenv = env[e[1][1]]
+            args = tuple(c_subst0(a, env) for a in e[2])
+            if len(params) == len(args):
+                inner = dict(cenv)
+                inner.update(zip(params, args))
+                return _tree_expr(CExec().run(list(body), inner))
+        return ('call', c_subst0(e[1], env) if e[1][0] != 'id' else e[1], tuple(c_subst0(a, env) for a in e[2]))
+    if k == 'idx':
+        return ('idx', c_subst0(e[1], env), c_subst0(e[2], env))
+    if k == 'member':
+        return ('member', c_subst0(e[1], env), e[2])
+    if k == 'un':
+        x = c_subst0(e[2], env)
+        if e[1] == '~' and x[0] == 'num':
+            return ('un', '-', ('num', x[1] + 1))       # ~3 == -4 (mask spelling)
+        return ('un', e[1], x)
+    if k == 'cast':
+        return c_subst0(e[1], env)          # integer / pointer casts are transparent for what is extracted here
+    if k == 'bin':
+        return ('bin', e[1], c_subst0(e[2], env), c_subst0(e[3], env))
+    if k == 'tern':
+        return ('tern', c_subst0(e[1], env), c_subst0(e[2], env), c_subst0(e[3], env))
+    raise Untranslatable(f'C: side effect inside an expression ({k})')
+
+
+C_NEG = {'<': '>=', '>=': '<', '>': '<=', '<=': '>', '==': '!=', '!=': '=='}
+TRUE, FALSE = ('num', 1), ('num', 0)
+
+
+def c_not(e):
+    if e == TRUE:
+        return FALSE
+    if e == FALSE:
+        return TRUE
+    if e[0] == 'un' and e[1] == '!':
+        return e[2]
+    if e[0] == 'bin' and e[1] in C_NEG:
+        return ('bin', C_NEG[e[1]], e[2], e[3])
+    return ('un', '!', e)
+
+
+def c_and(a, b):
+    if a == FALSE or b == FALSE:
+        return FALSE
+    if a == TRUE:
+        return b
+    if b == TRUE:
+        return a
+    return ('bin', '&&', a, b)
+
+
+def c_or(a, b):
+    if a == TRUE or b == TRUE:
+        return TRUE
+    if a == FALSE:
+        return b
+    if b == FALSE:
+        return a
+    if a == b:
+        return a
+    return ('bin', '||', a, b)
+
+
+def c_simp(e):
+    """constant folding of Boolean structure (after a parameter was fixed)"""
+    if e[0] == 'un' and e[1] == '!':
+        x = c_simp(e[2])
+        return c_not(x) if x in (TRUE, FALSE) or (x[0] == 'un' and x[1] == '!') else ('un', '!', x)
+    if e[0] == 'bin' and e[1] == '&&':
+        return c_and(c_simp(e[2]), c_simp(e[3]))
+    if e[0] == 'bin' and e[1] == '||':
+        return c_or(c_simp(e[2]), c_simp(e[3]))
+    return e
+
+
+def c_replace(e, old, new):
+    if e == old:
+        return new
+    if not isinstance(e, tuple):
+        return e
+    return tuple(c_replace(a, old, new) if isinstance(a, tuple) else a for a in e)
+
+
+class CExec:
+    """statements → decision tree: ('if', cond, T, F) | ('ret', e) | ('loop', stmt, env, rest) | ('fall', env) |
+    ('continue', env) | ('break', env) | ('throw',)"""
+    def __init__(self, stop_at_loop=True):
+        self.stop_at_loop = stop_at_loop
+        self.nodes = 0
+
+    def assign(self, target, op, value, env):
+        if target[0] != 'id':
+            raise Untranslatable('C: assignment to something that is not a local')
+        v = c_subst(value, env)
+        if op != '=':
+            v = ('bin', op[:-1], env.get(target[1], target), v)
+        env = dict(env)
+        env[target[1]] = v
+        return env
+
+    def effect(self, e, env):
+        """expression statement: assignments / ++ / -- on locals; calls are dropped"""
+        if e[0] == 'assign':
+            return self.assign(e[2], e[1], e[3], env)
+        if e[0] in ('post', 'un') and e[1] in ('++', '--'):
+            return self.assign(e[2], '+=' if e[1] == '++' else '-=', ('num', 1), env)
+        if e[0] == 'bin' and e[1] == ',':
+            return self.effect(e[3], self.effect(e[2], env))
+        if e[0] == 'call':
+            return env
+        raise Untranslatable(f'C: expression statement {e[0]}')
+
+    def ret(self, e):
+        """`return c ? a : b` is `if (c) return a; else return b;`"""
+        if e is not None and e[0] == 'tern':
+            c = c_simp(e[1])
+            if c == TRUE:
+                return self.ret(e[2])
+            if c == FALSE:
+                return self.ret(e[3])
+            return ('if', c, self.ret(e[2]), self.ret(e[3]))
+        return ('ret', e)
+
+    def run(self, stmts, env):
+        self.nodes += 1
+        if self.nodes > 4000:
+            raise Untranslatable('C: too many paths')
+        if not stmts:
+            return ('fall', env)
+        s, rest = stmts[0], list(stmts[1:])
+        k = s[0]
+        if k == 'block':
+            return self.run(list(s[1]) + rest, env)
+        if k == 'decl':
+            env = dict(env)
+            for name, init in s[1]:
+                if init is not None:
+                    env[name] = c_subst(init, env)
+                else:
+                    env.pop(name, None)
+            return self.run(rest, env)
+        if k == 'expr':
+            return self.run(rest, self.effect(s[1], env))
+        if k == 'return':
+            return self.ret(c_subst(s[1], env) if s[1] is not None else None)
+        if k == 'throw':
+            return ('throw',)
+        if k in ('break', 'continue'):
+            return (k, env)
+        if k == 'if':
+            _k, init, cond, then, els = s
+            if init is not None:
+                if init[0] == 'decl':
+                    env = dict(env)
+                    for name, iv in init[1]:
+                        env[name] = c_subst(iv, env) if iv is not None else ('id', name)
+                else:
+                    env = self.effect(init[1], env)
+            # an assignment used as the condition: `if ((k = key(…)) > best)`
+            c = c_simp(c_subst(cond, env))
+            if c == TRUE:
+                return self.run([then] + rest, env)
+            if c == FALSE:
+                return self.run(([els] if els is not None else []) + rest, env)
+            return ('if', c, self.run([then] + rest, env), self.run(([els] if els is not None else []) + rest, env))
+        if k in ('for', 'while', 'do'):
+            if self.stop_at_loop:
+                return ('loop', s, env, rest)
+            raise Untranslatable('C: nested loop')
+        raise Untranslatable(f'C: statement {k}')
+
+
+def c_resolve_tern(e, cond, value):
+    """e with every `cond ? a : b` replaced by a (value True) or b (value False)"""
+    if not isinstance(e, tuple) or not e:
+        return e
+    if e[0] == 'tern' and e[1] == cond:
+        return c_resolve_tern(e[2] if value else e[3], cond, value)
+    return tuple(c_resolve_tern(a, cond, value) if isinstance(a, tuple) else a for a in e)
+
+
+def _first_tern(e):
+    if not isinstance(e, tuple) or not e:
+        return None
+    if e[0] == 'tern':
+        return e[1]
+    for a in e:
+        if isinstance(a, tuple):
+            c = _first_tern(a)
+            if c is not None:
+                return c
+    return None
+
+
+def tree_split_selects(t, names, depth=0):
+    """branch-free selects in the values of the variables `names` at the leaves (`x = c ? a : x`) become branches of the tree"""
+    if t[0] == 'if':
+        return ('if', t[1], tree_split_selects(t[2], names, depth), tree_split_selects(t[3], names, depth))
+    if t[0] not in ('fall', 'continue', 'break') or depth > 8:
+        return t
+    env = t[1]
+    for n in names:
+        c = _first_tern(env.get(n)) if n in env else None
+        if c is not None:
+            yes = dict(env)
+            no = dict(env)
+            for k, v in env.items():
+                yes[k] = c_resolve_tern(v, c, True)
+                no[k] = c_resolve_tern(v, c, False)
+            return ('if', c, tree_split_selects((t[0], yes), names, depth + 1), tree_split_selects((t[0], no), names, depth + 1))
+    return t
+
+
+def tree_map_leaves(t, f):
+    if t[0] == 'if':
+        return ('if', t[1], tree_map_leaves(t[2], f), tree_map_leaves(t[3], f))
+    return f(t)
+
+
+def tree_leaves(t):
+    if t[0] == 'if':
+        yield from tree_leaves(t[2])
+        yield from tree_leaves(t[3])
+    else:
+        yield t
+
+
+def tree_fix(t, var, value):
+    """the tree with identifier `var` fixed to a constant (conditions folded, dead branches removed)"""
+    if t[0] != 'if':
+        return t
+    c = c_simp(c_replace(t[1], ('id', var), value))
+    if c == TRUE:
+        return tree_fix(t[2], var, value)
+    if c == FALSE:
+        return tree_fix(t[3], var, value)
+    return ('if', c, tree_fix(t[2], var, value), tree_fix(t[3], var, value))
+
+
+def tree_cond(t, pred):
+    """condition under which the tree ends in a leaf satisfying pred"""
+    if t[0] != 'if':
+        return TRUE if pred(t) else FALSE
+    a, b = tree_cond(t[2], pred), tree_cond(t[3], pred)
+    if a == b:
+        return a
+    return c_or(c_and(t[1], a), c_and(c_not(t[1]), b))
+
+
+def tree_value(t, pred, val):
+    """nested conditional expression giving val(leaf) on the leaves satisfying pred (the other leaves are unreachable under
+    tree_cond); None if no leaf satisfies pred"""
+    if t[0] != 'if':
+        return val(t) if pred(t) else None
+    a, b = tree_value(t[2], pred, val), tree_value(t[3], pred, val)
+    if a is None:
+        return b
+    if b is None:
+        return a
+    if a == b:
+        return a
+    c = t[1]
+    if (c[0] == 'bin' and c[1] in ('>=', '>', '!=')) or (c[0] == 'un' and c[1] == '!'):
+        # one spelling for a test and its negation: `<`, `<=`, `==` with the branches in the matching order
+        return ('tern', c_not(c), b, a)
+    return ('tern', c, a, b)
+
+
+def c_unparse(e):
+    k = e[0]
+    if k == 'num':
+        return str(e[1])
+    if k == 'id':
+        return e[1]
+    if k == 'un':
+        return f'{e[1]}{c_unparse(e[2])}' if e[2][0] in ('num', 'id') else f'{e[1]}({c_unparse(e[2])})'
+    if k == 'bin':
+        return f'({c_unparse(e[2])} {e[1]} {c_unparse(e[3])})'
+    if k == 'call' and e[1][0] == 'id' and e[1][1] in ('max', 'min') and len(e[2]) == 2:
+        return f'{e[1][1]}({c_unparse(e[2][0])}, {c_unparse(e[2][1])})'
+    raise Untranslatable(f'C: cannot express {k} as an integer expression')
+
+
+def c_to_lean(e, names, want):
+    """C expression tree → Lean term (same output conventions as `translate`); conditional expressions become if-then-else"""
+    if e[0] == 'tern':
+        return f'if {c_to_lean(e[1], names, "bool")} then {c_to_lean(e[2], names, want)} else {c_to_lean(e[3], names, want)}'
+    if e in (TRUE, FALSE) and want == 'bool':
+        return 'true' if e == TRUE else 'false'
+    return translate(c_unparse(e), names, want)
+
+
+# ---- the chunker's cut rule
+def _member_names(src):
+    """names of the members holding the minimum / maximum length (constructor `(size_t a, size_t b, …) : x(a), y(b)`)"""
+    s = re.sub(r'/\*.*?\*/', ' ', src, flags=re.S)
+    s = re.sub(r'//[^\n]*', ' ', s)
+    m = re.search(r'gclmulchunker\s*\(\s*size_t\s+(\w+)\s*,\s*size_t\s+(\w+)\s*,[^)]*\)\s*:\s*([^{]*)\{', s)
+    if m:
+        inits = dict((b, a) for a, b in re.findall(r'(\w+)\s*[({]\s*(\w+)\s*[)}]', m.group(3)))
+        if m.group(1) in inits and m.group(2) in inits:
+            return inits[m.group(1)], inits[m.group(2)]
+    return 'min_length', 'max_length'
+
+
+def analyse_next_cut(src):
+    """Lean bodies of the guard functions of `gclmulchunker::next_cut`, from its control flow:
+    {'scanStart', 'scanStride', 'scanInitIndex', 'scanInitValue', 'isTail', 'tailCut', 'waits', 'waitRet', 'scanContinue',
+     'better', 'needForce', 'forced'}.  Raises Untranslatable when the function is not of the form
+    "early returns that depend on (final, size, min, max); an arg-max scan over i = start, start+stride, … ; a forced
+    minimum"."""
+    fn = c_function(src, 'next_cut', 'gclmulchunker')
+    if fn is None:
+        raise Untranslatable('next_cut: definition not found')
+    params, body = fn
+    if len(params) != 2 or None in params:
+        raise Untranslatable('next_cut: expected (buffer, final)')
+    _HELPERS.clear()
+    _CONSTS.clear()
+    _CONSTS.update(c_file_consts(src))
+    _HELPERS.update({k: v for k, v in c_helpers(src).items() if k != 'next_cut'})
+    pbuf, pfinal = params
+    mn, mx = _member_names(src)
+    # the size of the buffer, however it is reached: <buffer>.request().size
+    size_leaf = ('member', ('call', ('member', ('id', pbuf), 'request'), ()), 'size')
+    data_leaf = ('member', ('call', ('member', ('id', pbuf), 'request'), ()), 'ptr')
+
+    def norm(e):
+        e = c_replace(e, size_leaf, ('id', '_L_size'))
+        e = c_replace(e, data_leaf, ('id', '_L_data'))
+        e = c_replace(e, ('id', pfinal), ('id', '_L_final'))
+        e = c_replace(e, ('id', mn), ('id', '_L_min'))
+        e = c_replace(e, ('id', mx), ('id', '_L_max'))
+        return e
+    names = {'_L_size': ('size', 'nat'), '_L_max': ('max', 'nat'), '_L_min': ('min', 'nat'), '_L_final': ('final', 'bool'),
+             '_L_i': ('i', 'nat'), '_L_k': ('k', 'nat'), '_L_best': ('best', 'nat'), '_L_mi': ('mi', 'nat')}
+    ex = CExec()
+    tree = ex.run(body, {})
+    tree = _norm_tree(tree, norm)
+    loops = [l for l in tree_leaves(tree) if l[0] == 'loop']
+    if not loops or any(l[0] not in ('loop', 'ret') for l in tree_leaves(tree)):
+        raise Untranslatable('next_cut: a path neither returns nor reaches the scan loop')
+    # every way into the loop must see the same loop statement and the same initial state
+    loop_stmt, rest = loops[0][1], loops[0][3]
+    if any(l[1] is not loop_stmt for l in loops):
+        raise Untranslatable('next_cut: more than one scan loop')
+    out = {}
+
+    def early(t):
+        return t[0] == 'ret'
+    for val, cname, vname, prefix in ((TRUE, 'isTail', 'tailCut', 'final'), (FALSE, 'waits', 'waitRet', '(!final)')):
+        t = tree_fix(tree, '_L_final', val)
+        cond = tree_cond(t, early)
+        value = tree_value(t, early, lambda l: l[1])
+        if value is None:
+            raise Untranslatable(f'next_cut: no early return when final = {val[1]}')
+        out[cname] = f'({prefix} && {c_to_lean(cond, names, "bool")})'
+        out[vname] = c_to_lean(value, names, 'nat')
+    # ---- the scan loop
+    kind = loop_stmt[0]
+    envs = [l[2] for l in loops]
+    if kind == 'for':
+        _k, init, cond, step, lbody = loop_stmt
+        lbody = [lbody]
+        pre = CExec()
+        envs2 = []
+        for env in envs:
+            if init is None:
+                envs2.append(env)
+            elif init[0] == 'decl':
+                e2 = dict(env)
+                for name, iv in init[1]:
+                    if iv is not None:
+                        e2[name] = c_subst(iv, e2)
+                envs2.append(e2)
+            else:
+                envs2.append(pre.effect(init[1], env))
+        envs = envs2
+    elif kind == 'while':
+        _k, cond, lb = loop_stmt
+        stmts = list(lb[1]) if lb[0] == 'block' else [lb]
+        if not stmts or stmts[-1][0] != 'expr':
+            raise Untranslatable('next_cut: while loop without a trailing step')
+        step = stmts[-1][1]
+        lbody = stmts[:-1]
+        if any(_has_stmt(s, 'continue') for s in lbody):
+            raise Untranslatable('next_cut: continue inside a while loop skips the step')
+    else:
+        raise Untranslatable('next_cut: do-while scan loop')
+    if cond is None or step is None:
+        raise Untranslatable('next_cut: scan loop without condition / step')
+    # loop variable and stride
+    if step is not None and step[0] == 'assign':
+        step = ('assign', step[1], step[2], c_subst(step[3], {k: v for k, v in envs[0].items() if v[0] == 'num'}) if step[3][0] != 'bin' else
+                c_fold(c_replace_ids(step[3], {k: v for k, v in envs[0].items() if v[0] == 'num' and k != step[2][1]})))
+    if step[0] == 'assign' and step[2][0] == 'id' and step[1] == '+=' and step[3][0] == 'num':
+        ivar, stride = step[2][1], step[3][1]
+    elif step[0] == 'assign' and step[2][0] == 'id' and step[1] == '=' and step[3][0] == 'bin' and step[3][1] == '+' \
+            and ('id', step[2][1]) in (step[3][2], step[3][3]) and (step[3][3] if step[3][2] == ('id', step[2][1]) else step[3][2])[0] == 'num':
+        ivar = step[2][1]
+        stride = (step[3][3] if step[3][2] == ('id', ivar) else step[3][2])[1]
+    elif step[0] in ('post', 'un') and step[1] == '++' and step[2][0] == 'id':
+        ivar, stride = step[2][1], 1
+    else:
+        raise Untranslatable('next_cut: step of the scan loop is not `i += constant`')
+    # variables the loop body writes: the running arg-max (index, value)
+    written = _assigned(lbody) - {ivar}
+    starts = {repr(env.get(ivar)) for env in envs}
+    if len(starts) != 1 or envs[0].get(ivar, ('x',))[0] != 'num':
+        raise Untranslatable('next_cut: scan start is not a constant')
+    out['scanStart'] = str(envs[0][ivar][1])
+    out['scanStride'] = str(stride)
+    relevant = (set(_ids(cond)) | {n for st_ in lbody + list(rest) for n in _ids(st_)}) - {ivar}
+    for env in envs[1:]:
+        if any(repr(env.get(v)) != repr(envs[0].get(v)) for v in relevant):
+            raise Untranslatable('next_cut: the scan loop is entered with different local values')
+    body_tree = CExec(stop_at_loop=False).run(lbody, dict(envs[0], **{ivar: ('id', '_L_i'), **{w: ('id', '_L_w_' + w) for w in written}}))
+    body_tree = tree_split_selects(body_tree, written)
+    body_tree = _norm_tree(body_tree, norm)
+    # identify index / value: on the updating leaves index := i and value := key(data, i)
+    key_call = None
+    idx_var = val_var = None
+    leaves = list(tree_leaves(body_tree))
+    if any(l[0] not in ('fall', 'continue') for l in leaves):
+        raise Untranslatable('next_cut: scan body leaves the loop')
+    for l in leaves:
+        for w in written:
+            v = norm(l[1].get(w, ('id', '_L_w_' + w)))
+            if v == ('id', '_L_i'):
+                idx_var = w
+            elif v[0] == 'call' and v[1][0] == 'id' and len(v[2]) == 2 and v[2][1] == ('id', '_L_i') and v[2][0] in (('id', '_L_data'),):
+                val_var, key_call = w, v
+    state_vars = {w for w in written if any(norm(l[1].get(w, ('id', '_L_w_' + w))) != ('id', '_L_w_' + w) for l in leaves)}
+    if idx_var is None or val_var is None or state_vars != {idx_var, val_var}:
+        raise Untranslatable('next_cut: scan body is not an arg-max update (index := i, value := key(data, i))')
+    out['keyFunction'] = key_call[1][1]
+
+    def updated(l):
+        a = norm(l[1].get(idx_var, ('id', '_L_w_' + idx_var)))
+        b = norm(l[1].get(val_var, ('id', '_L_w_' + val_var)))
+        if a == ('id', '_L_i') and b == key_call:
+            return True
+        if a == ('id', '_L_w_' + idx_var) and b == ('id', '_L_w_' + val_var):
+            return False
+        raise Untranslatable('next_cut: partial update of the running maximum')
+    bt = _norm_tree(body_tree, lambda e: c_replace(c_replace(e, key_call, ('id', '_L_k')), ('id', '_L_w_' + val_var), ('id', '_L_best')))
+    better = tree_cond(bt, updated)
+    out['better'] = c_to_lean(better, names, 'bool')
+    out['scanContinue'] = c_to_lean(norm(c_subst(cond, dict(envs[0], **{ivar: ('id', '_L_i')}))), names, 'bool')
+    inits = {(repr(env.get(idx_var)), repr(env.get(val_var))) for env in envs}
+    if len(inits) != 1 or envs[0].get(idx_var, ('x',))[0] != 'num' or envs[0].get(val_var, ('x',))[0] != 'num':
+        raise Untranslatable('next_cut: initial arg-max is not constant')
+    out['scanInitIndex'] = str(envs[0][idx_var][1])
+    out['scanInitValue'] = str(envs[0][val_var][1])
+    # ---- after the loop: the forced minimum
+    post = CExec().run(rest, dict(envs[0], **{idx_var: ('id', '_L_mi'), val_var: ('id', '_L_bestfinal'), ivar: ('id', '_L_iend')}))
+    post = _norm_tree(post, norm)
+    if any(l[0] != 'ret' or l[1] is None for l in tree_leaves(post)):
+        raise Untranslatable('next_cut: code after the scan does not return on every path')
+
+    def forced(l):
+        return l[1] != ('id', '_L_mi')
+    if not any(not forced(l) for l in tree_leaves(post)):
+        raise Untranslatable('next_cut: the scan result is never returned')
+    out['needForce'] = c_to_lean(tree_cond(post, forced), names, 'bool')
+    fv = tree_value(post, forced, lambda l: l[1])
+    if fv is None:
+        raise Untranslatable('next_cut: no forced minimum')
+    out['forced'] = c_to_lean(fv, names, 'nat')
+    return out
+
+
+def _norm_tree(t, f):
+    if t[0] == 'if':
+        return ('if', f(t[1]), _norm_tree(t[2], f), _norm_tree(t[3], f))
+    if t[0] == 'ret':
+        return ('ret', f(t[1]) if t[1] is not None else None)
+    return t
+
+
+def c_replace_ids(e, env):
+    if not isinstance(e, tuple) or not e:
+        return e
+    if len(e) == 2 and e[0] == 'id':
+        return env[e[1]] if e[1] in env else _CONSTS.get(e[1], e)
+    return tuple(c_replace_ids(a, env) if isinstance(a, tuple) else a for a in e)
+
+
+def _ids(x):
+    """identifiers mentioned anywhere in an expression / statement tree"""
+    if isinstance(x, tuple):
+        if len(x) == 2 and x[0] == 'id' and isinstance(x[1], str):
+            yield x[1]
+        for a in x:
+            if isinstance(a, (tuple, list)):
+                yield from _ids(a)
+    elif isinstance(x, list):
+        for a in x:
+            yield from _ids(a)
+
+
+def _has_stmt(s, kind):
+    if not isinstance(s, tuple):
+        return False
+    if s and s[0] == kind:
+        return True
+    return any(_has_stmt(a, kind) for a in s if isinstance(a, (tuple, list))) if s and s[0] in ('block', 'if', 'for', 'while', 'do') else \
+        (any(_has_stmt(a, kind) for a in s) if isinstance(s, list) else False)
+
+
+def _assigned(stmts):
+    out = set()
+
+    def ex(e):
+        if not isinstance(e, tuple) or not e:
+            return
+        if e[0] == 'assign' and e[2][0] == 'id':
+            out.add(e[2][1])
+        if e[0] in ('post', 'un') and e[1] in ('++', '--') and e[2][0] == 'id':
+            out.add(e[2][1])
+        for a in e:
+            if isinstance(a, tuple):
+                ex(a)
+
+    def st(s):
+        if s[0] == 'block':
+            for x in s[1]:
+                st(x)
+        elif s[0] == 'expr':
+            ex(s[1])
+        elif s[0] == 'if':
+            if s[1] is not None and s[1][0] == 'expr':
+                ex(s[1][1])
+            ex(s[2])
+            st(s[3])
+            if s[4] is not None:
+                st(s[4])
+        elif s[0] in ('for', 'while', 'do'):
+            raise Untranslatable('C: nested loop')
+    for s in stmts:
+        st(s)
+    return out
+
+
+def analyse_key(src, fname='key'):
+    """the window of `gclmulchunker::key`: {'back': bytes before the offset where the 8-byte load starts}; the value must be
+    extract64(k1 ^ clmul(params, clmul(params, load64(&buffer[offset - back]), 0), 0x11) ^ clmul(params, load64(…), 0), 0)"""
+    fn = c_function(src, fname, 'gclmulchunker')
+    if fn is None:
+        raise Untranslatable('key: definition not found')
+    params, body = fn
+    if len(params) != 2 or None in params:
+        raise Untranslatable('key: expected (buffer, offset)')
+    t = CExec().run(body, {})
+    if t[0] != 'ret' or t[1] is None:
+        raise Untranslatable('key: not a straight-line function')
+    e = t[1]
+
+    def call(x, name, n):
+        return x[0] == 'call' and x[1] == ('id', name) and len(x[2]) == n
+
+    def xors(x):
+        if call(x, '_mm_xor_si128', 2):
+            return xors(x[2][0]) + xors(x[2][1])
+        return [x]
+    if not (call(e, '_mm_extract_epi64', 2) and e[2][1] == ('num', 0)):
+        raise Untranslatable('key: result is not the low 64 bits of a vector')
+    parts = xors(e[2][0])
+    ids = [x for x in parts if x[0] == 'id']
+    if len(parts) != 3 or len(ids) != 1:
+        raise Untranslatable('key: not k1 ^ u ^ v')
+    k1 = ids[0]
+    parts.remove(k1)
+
+    def load(x):
+        if call(x, '_mm_loadu_si64', 1):
+            a = x[2][0]
+            if a[0] == 'un' and a[1] == '&' and a[2][0] == 'idx' and a[2][1] == ('id', params[0]):
+                i = a[2][2]
+                if i[0] == 'bin' and i[1] == '-' and i[2] == ('id', params[1]) and i[3][0] == 'num':
+                    return i[3][1]
+            if a[0] == 'bin' and a[1] in ('+', '-') and a[2] == ('id', params[0]):
+                i = a[3]
+                if a[1] == '+' and i[0] == 'bin' and i[1] == '-' and i[2] == ('id', params[1]) and i[3][0] == 'num':
+                    return i[3][1]
+        return None
+    for v, u in (parts, parts[::-1]):
+        if call(v, '_mm_clmulepi64_si128', 3) and v[2][0][0] == 'id' and v[2][2] == ('num', 0) and load(v[2][1]) is not None \
+                and call(u, '_mm_clmulepi64_si128', 3) and u[2][0] == v[2][0] and u[2][1] == v and u[2][2] == ('num', 0x11) \
+                and v[2][0] != k1:
+            return {'back': load(v[2][1]), 'params': v[2][0][1], 'k1': k1[1]}
+    raise Untranslatable('key: not the two carry-less multiplications of the modelled reduction')
+
+
+def analyse_ctor(src, params='params', k1='k1'):
+    """the constant of the reduction step, from the constructor: at its end <params> = _mm_set_epi64x(C, low 64 bits of the key)
+    and <k1> = the key shifted right by 8 bytes"""
+    try:
+        fn = c_function(src, 'gclmulchunker')
+        if fn is None:
+            raise Untranslatable('constructor not found')
+        prm, body = fn
+        if len(prm) != 3 or None in prm:
+            raise Untranslatable('constructor: expected (min, max, key)')
+        t = CExec().run(body, {})
+    except Untranslatable as e:
+        raise Untranslatable(f'parse: {e}')
+    falls = [l for l in tree_leaves(t) if l[0] == 'fall']
+    if len(falls) != 1 or any(l[0] not in ('fall', 'throw') for l in tree_leaves(t)):
+        raise Untranslatable('constructor: not one normal way out')
+    env = falls[0][1]
+    P, K = env.get(params), env.get(k1)
+
+    def call(x, name, n):
+        return x is not None and x[0] == 'call' and x[1] == ('id', name) and len(x[2]) == n
+    if not (call(P, '_mm_set_epi64x', 2) and P[2][0][0] == 'num' and call(P[2][1], '_mm_extract_epi64', 2) and P[2][1][2][1] == ('num', 0)):
+        raise Untranslatable('constructor: params is not set_epi64x(constant, low half of the key)')
+    whole = P[2][1][2][0]
+    if not (call(whole, '_mm_loadu_si128', 1) and call(K, '_mm_bsrli_si128', 2) and K[2][0] == whole and K[2][1] == ('num', 8)):
+        raise Untranslatable('constructor: k1 is not the high half of the key')
+    return P[2][0][1]
